@@ -59,6 +59,71 @@ def _helper_of(call: ast.Call, fn, mod) -> Optional[Tuple[object, bool]]:
     return None
 
 
+_UNROLLED: Dict[int, object] = {}
+
+
+def _const_table(name: str, mod) -> Optional[List[ast.AST]]:
+    """elements of a module-level constant tuple / list display bound once to `name` (at most 8 rows)"""
+    hits = [st for st in mod.tree.body if isinstance(st, (ast.Assign, ast.AnnAssign)) and getattr(st, "value", None) is not None
+            and isinstance((st.targets[0] if isinstance(st, ast.Assign) else st.target), ast.Name)
+            and (st.targets[0] if isinstance(st, ast.Assign) else st.target).id == name]
+    if len(hits) != 1 or not isinstance(hits[0].value, (ast.Tuple, ast.List)) or not 1 <= len(hits[0].value.elts) <= 8:
+        return None
+    return list(hits[0].value.elts)
+
+
+def unroll_table_loops(h):
+    """`for a, b in TABLE: <body>` over a module-level constant table is written out row by row (a table-driven dispatch becomes the
+    if-chain it stands for).  Only loops whose body has no break / continue of their own.  Returns a Function (h itself when unchanged)."""
+    from sa.model import Function, set_parents
+
+    if id(h) in _UNROLLED:
+        return _UNROLLED[id(h)]
+    mod = h.module
+    changed = False
+
+    class U(ast.NodeTransformer):
+        def visit_For(self, n: ast.For):  # noqa: N802
+            nonlocal changed
+            self.generic_visit(n)
+            if not isinstance(n.iter, ast.Name) or n.orelse:
+                return n
+            rows = _const_table(n.iter.id, mod)
+            if rows is None:
+                return n
+            if any(isinstance(x, (ast.Break, ast.Continue)) for st in n.body for x in ast.walk(st)):
+                return n
+            tnames = [e.id for e in n.target.elts] if isinstance(n.target, ast.Tuple) and all(isinstance(e, ast.Name) for e in n.target.elts) else (
+                [n.target.id] if isinstance(n.target, ast.Name) else None)
+            if tnames is None:
+                return n
+            out: List[ast.stmt] = []
+            for row in rows:
+                vals = list(row.elts) if isinstance(n.target, ast.Tuple) and isinstance(row, (ast.Tuple, ast.List)) and len(row.elts) == len(tnames) else (
+                    [row] if isinstance(n.target, ast.Name) else None)
+                if vals is None:
+                    return n
+                sub = dict(zip(tnames, vals))
+
+                class S(ast.NodeTransformer):
+                    def visit_Name(self, x: ast.Name):  # noqa: N802
+                        return clone(sub[x.id]) if x.id in sub and isinstance(x.ctx, ast.Load) else x
+
+                out += [S().visit(clone(st)) for st in n.body]
+            changed = True
+            return out
+
+    node = U().visit(clone(h.node))
+    if not changed:
+        _UNROLLED[id(h)] = h
+        return h
+    ast.fix_missing_locations(node)
+    set_parents(node)
+    out_fn = Function(module=h.module, qualname=h.qualname, node=node, cls=h.cls)
+    _UNROLLED[id(h)] = out_fn
+    return out_fn
+
+
 def _inlinable(h, stack: Tuple[str, ...]) -> bool:
     n = h.node
     if h.fq in stack:
@@ -246,6 +311,8 @@ class _Flattener:
         got = _helper_of(call, self.fn, self.mod)
         if got is not None and self.select is not None and not self.select(got[0]):
             return None
+        if got is not None:
+            got = (unroll_table_loops(got[0]), got[1])  # table-driven dispatch helpers are inlined as the if-chain they stand for
         return got
 
     def block(self, stmts: List[ast.stmt], stack: Tuple[str, ...], depth: int) -> List[ast.stmt]:
